@@ -58,9 +58,11 @@ func init() {
 	reg(propCfg{ID: "C02", Level: "exploration", Quick: q(16, 2000), Thorough: th(16, 30000)})
 	reg(propCfg{ID: "C03", Level: "exploration", Quick: q(16, 2500), Thorough: th(16, 60000)})
 	reg(propCfg{ID: "C04", Level: "exploration", Quick: q(16, 4000), Thorough: th(16, 100000)})
+	reg(propCfg{ID: "C12", Level: "exploration", Quick: q(16, 2500), Thorough: th(16, 30000)})
 	reg(propCfg{ID: "C13", Level: "exploration", Quick: q(16, 2000), Thorough: th(16, 40000)})
 	reg(propCfg{ID: "C14", Level: "exploration", Quick: q(16, 1500), Thorough: th(16, 30000)})
 	reg(propCfg{ID: "C15", Level: "exploration", Quick: q(16, 2000), Thorough: th(16, 40000)})
+	reg(propCfg{ID: "C16", Level: "exploration", Quick: q(16, 2500), Thorough: th(16, 60000)})
 	reg(propCfg{ID: "C18", Level: "exploration", Quick: q(16, 3000), Thorough: th(16, 80000)})
 	reg(propCfg{ID: "C05", Level: "exploration", Quick: q(16, 3000), Thorough: th(16, 80000)})
 	reg(propCfg{ID: "C06", Level: "exploration", Quick: q(16, 3000), Thorough: th(16, 50000)})
